@@ -129,6 +129,22 @@ type cEnv struct {
 	// value returned on a path taken under an unknown condition, to be merged
 	// with the function's eventual result
 	pendingRet *Val
+	// labelled loops: the label of the statement about to be executed, and the
+	// label a cBreakL / cContinueL in flight is aimed at
+	nextLabel, brLabel string
+}
+
+// ownBranch turns a labelled break/continue that is aimed at the loop labelled
+// `label` into the plain one.
+func (e *cEnv) ownBranch(ct ctrl, label string) ctrl {
+	if (ct == cBreakL || ct == cContinueL) && label != "" && e.brLabel == label {
+		e.brLabel = ""
+		if ct == cBreakL {
+			return cBreak
+		}
+		return cContinue
+	}
+	return ct
 }
 
 func newCEnv(p *Pkg, bytes []uint8) *cEnv {
@@ -169,6 +185,10 @@ const (
 	cReturn
 	cBreak
 	cContinue
+	// a labelled break / continue on its way to the loop that carries the label
+	// (the label is in cEnv.brLabel)
+	cBreakL
+	cContinueL
 )
 
 func zeroOf(t types.Type) Val {
@@ -351,7 +371,12 @@ func (e *cEnv) assign(lhs ast.Expr, v Val, define bool) error {
 	if ix, ok := lhs.(*ast.IndexExpr); ok {
 		if id, ok := ix.X.(*ast.Ident); ok {
 			if obj := e.p.Info.Uses[id]; obj != nil {
-				if _, isSl := obj.Type().Underlying().(*types.Slice); isSl {
+				_, isSl := obj.Type().Underlying().(*types.Slice)
+				if pt, isPtr := obj.Type().Underlying().(*types.Pointer); isPtr {
+					// p[i] through a pointer to an array: the array is shared, like a slice's
+					_, isSl = pt.Elem().Underlying().(*types.Array)
+				}
+				if isSl {
 					// a slice shares its backing array with whoever handed it over: write in place
 					if cur, has := e.vars[obj]; has && cur.K == VList {
 						iv, err := e.eval(ix.Index)
@@ -703,7 +728,16 @@ func (e *cEnv) exec(s ast.Stmt) (ctrl, Val, error) {
 			return run(def)
 		}
 		return cNext, Val{}, nil
+	case *ast.LabeledStmt:
+		switch st.Stmt.(type) {
+		case *ast.ForStmt, *ast.RangeStmt:
+			e.nextLabel = st.Label.Name
+			return e.exec(st.Stmt)
+		}
+		return cNext, Val{}, undecidedf(s, "label on a statement other than a loop")
 	case *ast.ForStmt:
+		myLabel := e.nextLabel
+		e.nextLabel = ""
 		if st.Init != nil {
 			if ct, v, err := e.exec(st.Init); err != nil || ct != cNext {
 				return ct, v, err
@@ -729,7 +763,8 @@ func (e *cEnv) exec(s ast.Stmt) (ctrl, Val, error) {
 			if err != nil {
 				return cNext, Val{}, err
 			}
-			if ct == cReturn {
+			ct = e.ownBranch(ct, myLabel)
+			if ct == cReturn || ct == cBreakL || ct == cContinueL {
 				return ct, v, nil
 			}
 			if ct == cBreak {
@@ -743,6 +778,8 @@ func (e *cEnv) exec(s ast.Stmt) (ctrl, Val, error) {
 		}
 		return cNext, Val{}, nil
 	case *ast.RangeStmt:
+		myLabel := e.nextLabel
+		e.nextLabel = ""
 		x, err := e.eval(st.X)
 		if err != nil {
 			return cNext, Val{}, err
@@ -785,7 +822,8 @@ func (e *cEnv) exec(s ast.Stmt) (ctrl, Val, error) {
 			if err != nil {
 				return cNext, Val{}, err
 			}
-			if ct == cReturn {
+			ct = e.ownBranch(ct, myLabel)
+			if ct == cReturn || ct == cBreakL || ct == cContinueL {
 				return ct, v, nil
 			}
 			if ct == cBreak {
@@ -799,10 +837,14 @@ func (e *cEnv) exec(s ast.Stmt) (ctrl, Val, error) {
 			if st.Label == nil {
 				return cBreak, Val{}, nil
 			}
+			e.brLabel = st.Label.Name
+			return cBreakL, Val{}, nil
 		case token.CONTINUE:
 			if st.Label == nil {
 				return cContinue, Val{}, nil
 			}
+			e.brLabel = st.Label.Name
+			return cContinueL, Val{}, nil
 		}
 		return cNext, Val{}, undecidedf(s, "branch statement outside the fragment language")
 	}
@@ -1582,6 +1624,36 @@ func (e *cEnv) evalCall(n *ast.CallExpr) (Val, error) {
 			return Val{K: VNaN}, nil
 		case "IsNaN":
 			return vBool(args[0].K == VNaN), nil
+		case "Max", "Min":
+			// exact on the evaluator's rationals; NaN if either argument is NaN
+			if len(args) == 2 {
+				a, b := args[0], args[1]
+				if a.K == VNaN || b.K == VNaN {
+					return Val{K: VNaN}, nil
+				}
+				if a.K == VUnk || b.K == VUnk {
+					return Val{K: VUnk}, nil
+				}
+				if (a.K == VInt || a.K == VRat) && (b.K == VInt || b.K == VRat) {
+					c := toRat(a).Cmp(toRat(b))
+					if (fn.Name() == "Max") == (c >= 0) {
+						return Val{K: VRat, R: toRat(a)}, nil
+					}
+					return Val{K: VRat, R: toRat(b)}, nil
+				}
+			}
+		case "Abs":
+			// exact on the evaluator's rationals; NaN stays NaN
+			switch args[0].K {
+			case VNaN, VUnk:
+				return args[0], nil
+			case VInt, VRat:
+				r := toRat(args[0])
+				if r.Sign() < 0 {
+					return Val{K: VRat, R: new(big.Rat).Neg(r)}, nil
+				}
+				return args[0], nil
+			}
 		}
 		return Val{}, undecidedf(n, "math.%s is not evaluated", fn.Name())
 	}
@@ -1759,6 +1831,32 @@ func (p *Pkg) listValueDepth(e ast.Expr, depth int) (Val, bool) {
 			}
 			return Val{}, false
 		}
+	}
+	// a constant slice of another table: base[:], base[lo:hi]
+	if se, ok := e.(*ast.SliceExpr); ok && !se.Slice3 {
+		base, ok := p.listValueDepth(se.X, depth+1)
+		if !ok || base.K != VList {
+			return Val{}, false
+		}
+		lo, hi := 0, len(base.T)
+		if se.Low != nil {
+			k, ok := constUint(p.Info, se.Low)
+			if !ok {
+				return Val{}, false
+			}
+			lo = int(k)
+		}
+		if se.High != nil {
+			k, ok := constUint(p.Info, se.High)
+			if !ok {
+				return Val{}, false
+			}
+			hi = int(k)
+		}
+		if lo > hi || hi > len(base.T) {
+			return Val{}, false
+		}
+		return Val{K: VList, T: base.T[lo:hi]}, true
 	}
 	// &T{…} inside a table: the record itself
 	if u, ok := e.(*ast.UnaryExpr); ok && u.Op == token.AND {
